@@ -33,3 +33,43 @@ Example ex_emit_conclusion :
       | _, _ => false
       end) (map mt_name (m_types ex_model))) X.all_targets = true.
 Proof. vm_compute. reflexivity. Qed.
+
+(* ------------------------------------------------------------------------------------------ *)
+(** * non-vacuity of C15_emit_respects_equiv_interface and C15_alias_denotations_agree *)
+From V Require Import C15.EmitIface C15.EmitDen.
+From V Require C10.Spec.
+Module XS := V.C10.Spec.
+
+(** an introspection result without the introspection types (their names start with `__`, which C10's [wf_schema] excludes) *)
+Definition ex_sj0 : schema := json_schema (listed_types false ex_model) ex_model.
+Definition ex_da0 : tsdoc := type_system_to_ast ex_sj0.
+
+Definition res_ok {A} (r : X.res A) : bool := match r with X.Ok _ => true | _ => false end.
+Definition alias_present (o : X.sopts) (D : tsdoc) (t : X.target) (T : str) : bool :=
+  match X.schema_decls o D with
+  | X.Ok nss => match XS.alias_of (XS.namespace_of nss t) T with Some _ => true | None => false end
+  | _ => false
+  end.
+
+Example ex_den_guards :
+  XS.wf_schema ex_opts ex_da0 = true /\ XS.wf_schema ex_opts ex_dd = true
+  /\ res_ok (X.schema_decls ex_opts ex_da0) = true /\ res_ok (X.schema_decls ex_opts ex_dd) = true
+  /\ doc_emit_closed_b (vis_of ex_model) ex_da0 = true
+  /\ objects_outside_b (vis_of ex_model) ex_da0 = true /\ objects_outside_b (vis_of ex_model) ex_dd = true
+  /\ objects_outside_b (vis_of ex_model) ex_da = true.
+Proof. repeat split; vm_compute; reflexivity. Qed.
+
+(** every type of the model that has an alias in a namespace has it on both routes: the interface Node, the union U and the
+    objects in the output namespaces, the input object in the input namespaces, scalars and the enum everywhere *)
+Example ex_den_aliases :
+  forallb (fun t => forallb (fun T => Bool.eqb (XS.applicable ex_da0 t T) (alias_present ex_opts ex_da0 t T)
+                                      && Bool.eqb (XS.applicable ex_da0 t T) (alias_present ex_opts ex_dd t T))
+                            (map mt_name (m_types ex_model))) X.all_targets = true
+  /\ XS.applicable ex_da0 X.OpOut (s "Node") = true /\ XS.applicable ex_da0 X.ResIn (s "Filter") = true.
+Proof. repeat split; vm_compute; reflexivity. Qed.
+
+(** the interface: the two routes list the implementers of Node in different documents but as the same set *)
+Example ex_iface_members :
+  X.interface_implementers ex_da (s "Node") <> [] /\
+  map iname (X.interface_implementers ex_da (s "Node")) = map iname (X.interface_implementers ex_dd (s "Node")).
+Proof. split; [vm_compute; discriminate|vm_compute; reflexivity]. Qed.
